@@ -158,8 +158,8 @@ def run_case(ctx, case):
         for _ in range(3):
             if not runs:
                 break
-            l, c, el, ec = runs[picks.pop() % len(runs)]
-            judge("extract_function", "aligned-stmts", lambda s: s.extract_function(l, c, new_name=NEW, until_line=el, until_column=ec),
+            l, c, el, ec, rshape = runs[picks.pop() % len(runs)]
+            judge("extract_function", "aligned-stmts" + rshape, lambda s: s.extract_function(l, c, new_name=NEW, until_line=el, until_column=ec),
                   True, "(%d,%d)-(%d,%d)" % (l, c, el, ec))
         # ---- inline of single-assignment variables
         assigns = [(m.start(), m.group(1)) for m in re.finditer(r"^(pv_\w+) = ", text, re.M) if m.group(1) not in case.get("impure", [])]
